@@ -31,7 +31,7 @@ class UnsortedGen(ValueGen):
 
     def sort_entries(self, p, es):
         es = list(es)
-        if es and self.rng.random() < 0.5:
+        if es and (len(es) == 1 or self.rng.random() < 0.5):
             for _ in range(self.rng.choice([1, 1, 2])):
                 e = self.rng.choice(es)
                 if self.rng.random() < 0.5 and len(e[1]) == 2 and e[1][1] is not None:
@@ -60,7 +60,7 @@ def specs_for(ctx, fam):
     def accept(ins):
         return any(x["kind"] == "dict" for x in ins)
 
-    return c + rand_specs(ctx, 2 if quick else 40, prefix="rb", extra_opts=["--generateByteVersions=rs."], gen_cls=DictGen,
+    return c + rand_specs(ctx, 2 if quick else 24, prefix="rb", extra_opts=["--generateByteVersions=rs."], gen_cls=DictGen,
                           verifdump=fam.bins.get("verifdump"), accept=accept)
 
 
